@@ -109,8 +109,13 @@ func mkCert(a attrs, transID string, prins []string, reqUser string) *ssh.Certif
 	pj, _ := json.Marshal(prins)
 	tj, _ := json.Marshal(transID)
 	uj, _ := json.Marshal(reqUser)
-	b := []byte(fmt.Sprintf(`{"prins":%s,"transID":%s,"reqUser":%s,"reqIP":"10.1.2.3","reqHost":"h","isFirefighter":%v,"isHWKey":%v,"isHeadless":%v,"isNonce":%v,"usage":%d,"touchPolicy":%d,"ver":1}`,
-		pj, tj, uj, a.FF, a.HW, a.Headless, a.Nonce, a.Usage, a.Touch))
+	// every third KeyID also carries members this release does not know (as "usage" once was unknown to older ones)
+	extra := ""
+	if (a.Touch+a.Opt+a.Usage+len(prins))%3 == 0 {
+		extra = `,"issuedBy":"ca-7","attrs":{"x":[1,2,{"ver":2}]},"isFuture":true`
+	}
+	b := []byte(fmt.Sprintf(`{"prins":%s,"transID":%s,"reqUser":%s,"reqIP":"10.1.2.3","reqHost":"h","isFirefighter":%v,"isHWKey":%v,"isHeadless":%v,"isNonce":%v,"usage":%d,"touchPolicy":%d,"ver":1%s}`,
+		pj, tj, uj, a.FF, a.HW, a.Headless, a.Nonce, a.Usage, a.Touch, extra))
 	c := &ssh.Certificate{KeyId: string(b), ValidPrincipals: prins}
 	// everything else about the certificate is irrelevant to its type, label and principals: varied
 	// (determined by the KeyID text, so that a case replays identically)
